@@ -126,7 +126,7 @@ func verifH_C17_names() {
 	verifReach("end")
 }
 
-//verif:harness id=C17 tier=quick,thorough witness=end bounds="documents at the small end of the convertible fragment: no paths (paths: {}), with or without definitions / a host / security definitions: the OpenAPI 3 document passes validation and converts back to a document with the same (empty) paths and the same definitions"
+//verif:harness id=C17 tier=quick,thorough witness=end bounds="documents at the small end of the convertible fragment: no paths (paths: {}), with or without definitions / a host / security definitions (basic, or OAuth2 of each flow with 0-2 scopes): the OpenAPI 3 document passes validation and converts back to a document with the same (empty) paths and the same definitions"
 func verifH_C17_minimal() {
 	doc := &openapi2.T{Swagger: "2.0", Info: openapi3.Info{Title: "t", Version: "1"}, Paths: map[string]*openapi2.PathItem{}}
 	if verifChoose("host", 2) == 1 {
@@ -136,8 +136,23 @@ func verifH_C17_minimal() {
 	if hasDefs {
 		doc.Definitions = map[string]*openapi2.SchemaRef{"Item": {Value: &openapi2.Schema{Type: &openapi3.Types{"string"}}}}
 	}
-	if verifChoose("security", 2) == 1 {
+	var oauth *openapi2.SecurityScheme
+	switch verifChoose("security", 3) {
+	case 1:
 		doc.SecurityDefinitions = map[string]*openapi2.SecurityScheme{"basic": {Type: "basic"}}
+	case 2:
+		// an OAuth2 definition of each flow with no, one or two scopes (an empty scopes object is legal)
+		oauth = &openapi2.SecurityScheme{Type: "oauth2", Flow: []string{"implicit", "password", "application", "accessCode"}[verifChoose("flow", 4)]}
+		oauth.Scopes = []map[string]string{{}, {"r": "read"}, {"r": "read", "w": "write"}}[verifChoose("scopes", 3)]
+		switch oauth.Flow {
+		case "implicit":
+			oauth.AuthorizationURL = "https://a.example/auth"
+		case "password", "application":
+			oauth.TokenURL = "https://a.example/token"
+		case "accessCode":
+			oauth.AuthorizationURL, oauth.TokenURL = "https://a.example/auth", "https://a.example/token"
+		}
+		doc.SecurityDefinitions = map[string]*openapi2.SecurityScheme{"oauth": oauth}
 	}
 	doc3, err := ToV3(doc)
 	verifAssert(err == nil && doc3 != nil, "C17 minimal: the document converts")
@@ -152,5 +167,15 @@ func verifH_C17_minimal() {
 		return
 	}
 	verifAssert(len(back.Paths) == 0 && (len(back.Definitions) == 1) == hasDefs && back.Host == doc.Host && back.BasePath == doc.BasePath, "C17 minimal: the same document comes back")
+	if oauth != nil {
+		bo := back.SecurityDefinitions["oauth"]
+		same := bo != nil && bo.Type == "oauth2" && bo.Flow == oauth.Flow && bo.AuthorizationURL == oauth.AuthorizationURL && bo.TokenURL == oauth.TokenURL && len(bo.Scopes) == len(oauth.Scopes)
+		if same {
+			for k, v := range oauth.Scopes {
+				same = same && bo.Scopes[k] == v
+			}
+		}
+		verifAssert(same, "C17 minimal: the OAuth2 definition comes back with its flow, URLs and scopes")
+	}
 	verifReach("end")
 }
